@@ -44,7 +44,7 @@ def run(ctx):
     # (M) bijectivity / uniqueness on the model
     # a DER signature has at least 8 bytes (30 06 02 01 xx 02 01 yy); 9 with one two-byte integer (length 7)
     alpha = [0, 1, 2, 6, 48] if quick else [0, 1, 2, 6, 7, 48, 128]
-    cfg = sigcommon.model_cfg(2, 24 if quick else 64, alpha, 8 if quick else 9,
+    cfg = sigcommon.model_cfg(2, 24 if quick else 64, alpha, 8,
                               ["RoundTrips", "RawUnique", "DerUnique"])
     ctx.add_tlc(core.tlc_or_die(ctx.workdir, "SigModel", cfg, tag="bij", timeout=3000))
     # non-vacuity: some enumerated DER candidate IS accepted (invariant expected to fail)
